@@ -1528,6 +1528,38 @@ impl Linearizer {
         Ok(())
     }
 
+    /// Lowering rules (operand pruning, sign-known abs, big-M constants) rely on
+    /// the derived variable ranges, so every derived range has to hold in the
+    /// compiled model. Real and integer domains carry it themselves; a Boolean
+    /// domain cannot, so a derived range that fixes a Boolean variable is
+    /// enforced with an explicit row.
+    fn enforce_derived_boolean_bounds(&mut self) -> Result<(), LinearizationError> {
+        let tolerance = 1e-9;
+        let mut rows: Vec<(String, f64)> = Vec::new();
+        for (name, variable) in &self.domain {
+            if !matches!(variable.get_type(), VariableType::Boolean) {
+                continue;
+            }
+            let derived = self.bounds.bounds_of(&Exp::Variable(name.clone()));
+            let lower = (derived.lower - tolerance).ceil();
+            let upper = (derived.upper + tolerance).floor();
+            // without an integral point the model is infeasible and the
+            // original rows report it, exactly as for integer ranges
+            if lower <= upper && (lower > 0.0 || upper < 1.0) {
+                rows.push((name.clone(), lower));
+            }
+        }
+        for (name, value) in rows {
+            self.emit_constraint(
+                Exp::Variable(name),
+                Comparison::Equal,
+                Exp::Number(value),
+                String::new(),
+            )?;
+        }
+        Ok(())
+    }
+
     /// Returns names of all variables that are used in constraints.
     pub fn used_variables(&self) -> Vec<String> {
         self.domain
@@ -1550,6 +1582,7 @@ impl Linearizer {
         let bounds = BoundsAnalyzer::analyze(&domain, &constraints);
         bounds.apply_to_domain(&mut domain);
         let mut context = Linearizer::new_from_with_bounds(constraints, domain, bounds);
+        context.enforce_derived_boolean_bounds()?;
         let objective_type = objective.objective_type.clone();
         let objective_exp = objective.rhs.flatten().simplify();
         let objective_requirement = match &objective_type {
